@@ -6,6 +6,7 @@ import UbxModel.Spec.Keys
 import UbxModel.Spec.Helpers
 import UbxModel.Spec.Layouts
 import UbxModel.Spec.Rmw
+import UbxModel.Spec.Utf8
 import UbxModel.Driver.Common
 open DriverCommon
 /-! Line-protocol driver over the *specification* only (`Spec/` imports neither `Model/` nor `Gen/`):
@@ -72,6 +73,7 @@ def handle (line : String) : String :=
   | ["rmw", c, n, pl, f, v] => (match specLayout c n.toNat! with
       | some l => (match Spec.rmw l (parseHex pl) f (parseSpecVal v) with | some bs => toHex bs | none => "no-such-field")
       | none => "no-layout")
+  | ["utf8enc", cps] => toHex (Ubx.Spec.encodeText (if cps.isEmpty then [] else (cps.splitOn ",").map String.toNat!))
   | ["keyid", s, g, i] => toString (Spec.keyId s.toNat! g.toNat! i.toNat!)
   | ["keysigned", k] => toString (Spec.documentedSigned k.toNat!)
   | ["sizebits", s] => (match Spec.sizeBits s.toNat! with | some b => toString b | none => "none")
